@@ -420,6 +420,13 @@ func TestC12(t *testing.T) {
 			{Argv: []string{"info", "key", "conv", "--key", "E", "-c", "d"}},
 			{Argv: []string{"info", "key", "conv", "--key", "Bbm", "-c", "s"}},
 			{Argv: []string{"info", "key", "conv", "--key", "Ab", "-c", "s"}},
+			// a step onto a position with two spellings, then a step away from it: both spellings are members of the
+			// set the next step starts from
+			{Argv: []string{"info", "key", "conv", "--key", "B", "-c", "dr"}},
+			{Argv: []string{"info", "key", "conv", "--key", "Db", "-c", "sr"}},
+			{Argv: []string{"info", "key", "conv", "--key", "C", "-c", "ddddddr"}},
+			{Argv: []string{"info", "key", "conv", "--key", "G#m", "-c", "dp"}},
+			{Argv: []string{"info", "key", "conv", "--key", "E", "-c", "ddrs"}},
 			{Argv: []string{"info", "attr", "list"}},
 			{Argv: []string{"info", "chord", "list"}},
 			{Argv: []string{"gen", "attr"}},
